@@ -448,8 +448,18 @@ func checkBackgroundStart(p *Prog, r *Report, rule string) {
 					}
 				}
 			}
+			impliedByMatch := false
+			for _, cf := range cmpForms(gd.If.Cond) {
+				// "the protocol is not <another constant>" (an earlier case of a switch on the protocol) says nothing more
+				if _, fn, _, isF := loadedField(cf.X); isF && fn == "CollectorProtocol" && cf.Op == token.NEQ {
+					if sv, isS := constString(cf.Y); isS && sv != want && gd.Succ == cf.Succ {
+						impliedByMatch = true
+					}
+				}
+			}
 			if okG {
 				matched = true
+			} else if impliedByMatch {
 			} else if onlyErrorReturnsFrom(gd.If.Block().Succs[1-gd.Succ]) {
 				// the other edge makes the constructor fail (no exporting process exists): not a condition on starting the task
 			} else if ex, isEx := gd.If.Cond.(*ssa.Extract); isEx {
